@@ -6,7 +6,11 @@ real Daemon.handleRequest and (2) call by call through a second real Proxy again
 Model side: lean/PyroModel/Batch.lean driven by drv_c11 with the same tables.
 """
 import copy
+import datetime
+import decimal
 import json
+import marshal
+import uuid
 import os
 import re
 import shutil
@@ -86,6 +90,24 @@ GOOD_ARGS = (0, 1, 2, 3, 4, 5)
 BAD_ARGS = (6, 7, 8)
 common.repo_on_path()
 from Pyro5 import errors as _pyro_errors   # noqa: E402  (this module is only imported by the runner, after VERIF_REPO is known)
+from Pyro5 import core as _pyro_core       # noqa: E402
+# ids 9..14: arguments a serializer transports only through CONVERSION (documented replacement: uuid/Decimal/datetime -> str,
+# URI -> its class dict and back, set/tuple -> what the wire format has), positional and keyword.  One by one every
+# serializer that supports the type delivers them; C11 demands the same of a batch.  The receiving side identifies an
+# argument by its canonical form (`_norm`), which is the same for the original and for every serializer's replacement.
+_UUID, _DEC, _DT = uuid.UUID(int=5), decimal.Decimal("1.5"), datetime.datetime(2020, 1, 2, 3, 4, 5)
+_URI = _pyro_core.URI("PYRO:obj@host:1234")
+ARGS += [
+    ((_UUID,), {}),
+    ((1,), {"k": _UUID}),
+    ((_URI,), {"y": {1, 2}}),
+    (((1, (2, 3)),), {"k": _URI}),
+    ((_DEC,), {"k": _DT}),
+    ((_DT,), {"y": _DEC}),
+]
+CONV_ARGS = (9, 10, 11, 12, 13, 14)
+CONV_ARGS_OF = {"marshal": (9, 10, 11, 12)}      # marshal has no replacement for Decimal / datetime at all (plain calls fail too)
+KNOWN_ARGCONV = "marshal-batch-argument-not-converted"
 
 # ids 12..15: exception OBJECTS as ordinary return values (a validator returning the problem it found): the call
 # succeeds, the object must be yielded like any other result and the calls behind it must deliver theirs
@@ -136,6 +158,12 @@ def _exc_pool():
 
 
 def _norm(v):
+    if isinstance(v, (uuid.UUID, decimal.Decimal, _pyro_core.URI)):
+        return str(v)
+    if isinstance(v, datetime.datetime):
+        return v.isoformat()
+    if isinstance(v, (set, frozenset)):
+        return sorted(_norm(x) for x in v)
     if isinstance(v, (tuple, list)):
         return [_norm(x) for x in v]
     if isinstance(v, dict):
@@ -147,7 +175,8 @@ def _key(v):
     return repr(_norm(v))
 
 
-ARG_IDS = {_key(list(a) + [sorted(k.items())]): i for i, (a, k) in enumerate(ARGS) if i in GOOD_ARGS}
+ARG_IDS = {_key(list(a) + [sorted(k.items())]): i for i, (a, k) in enumerate(ARGS) if i in GOOD_ARGS + CONV_ARGS}
+assert len(ARG_IDS) == len(GOOD_ARGS + CONV_ARGS)
 VALUE_IDS = {_key(v): i for i, v in enumerate(VALUES)}
 assert len(VALUE_IDS) == len(VALUES)
 
@@ -571,7 +600,7 @@ def judge_prog(env, case, bouts, souts, eff):
 
 def gen_prog(rng, sers=SERIALIZERS):
     base = gen_case(rng, 6, sers)
-    pool = list(base["calls"])
+    pool = [[n, (a % 6 if a in CONV_ARGS else a)] for n, a in base["calls"]]     # conversion arguments: single batches only
     nops = rng.randint(3, 14)
     use_acc = rng.random() < 0.05
     ops, nbp, pending = [], 1, {0: 0}
@@ -644,10 +673,32 @@ def _grew_after_sync(env, case, sync_at):
     return len(obj.log) > sync_at
 
 
+def _unconverted_member(case):
+    """(index, value) of the first batch member with an argument (positional or keyword) that `marshal` cannot dump where it
+    sits - asked of the marshal module itself, nothing of Pyro5 is involved"""
+    for i, (n, a) in enumerate(case["calls"]):
+        args, kwargs = ARGS[a]
+        for v in list(args) + [kwargs[k] for k in sorted(kwargs)]:
+            try:
+                marshal.dumps(v)
+            except ValueError:
+                return i, v
+    return None
+
+
 def judge(env, case, bres, sres):
     """the property itself on the two REAL runs (no model involved) -> (signature, description) or None"""
     what = "%s/%s/%s batch of %d call(s)" % (case["ser"], "oneway" if case["oneway"] else "normal", case["srv"], len(case["calls"]))
     calls = " ".join("%s#%d" % (NAMES[n], a) for n, a in case["calls"][:14])
+    if bres["kind"] == "submit" and isinstance(bres["exc"], ValueError) and "unmarshallable" in str(bres["exc"]) and \
+            case["ser"] == "marshal" and not bres["log"] and _unconverted_member(case) is not None and \
+            not (sres["exc"] is not None and _exc_same(bres["exc"], sres["exc"])):
+        i, v = _unconverted_member(case)
+        return (KNOWN_ARGCONV,
+                "%s [%s]: submitting the batch raises %r on the client and nothing is executed: member %d carries the argument %r, "
+                "which MarshalSerializer.dumpsCall converts when it is an argument of a plain call but not inside the "
+                "(method, args, kwargs) tuple of a batch; one by one the calls give %d result(s)%s"
+                % (what, calls, bres["exc"], i, v, len(sres["vals"]), "" if sres["exc"] is None else " then " + repr(sres["exc"])))
     if bres["kind"] == "submit" and isinstance(bres["exc"], AttributeError) and \
             "'NoneType' object has no attribute 'items'" in str(bres["exc"]) and \
             not (sres["exc"] is not None and _exc_same(bres["exc"], sres["exc"])):
@@ -762,6 +813,13 @@ def gen_case(rng, maxlen, sers=SERIALIZERS):
     calls, q, alive = [], case_q0, True
     fail_at = rng.randrange(L) if (mode == "onefail" and L) else -1
     use_acc = rng.random() < 0.05
+    use_conv = rng.random() < 0.07      # family: arguments that need the serializer's conversion (ids 9..14), all of them with rows
+    if use_conv:
+        for qq in range(K):
+            for nn in (0, 1, 2):
+                for aa in CONV_ARGS:
+                    rows.append([qq, nn, aa, rng.randrange(K), "o", rng.randrange(len(VALUES))])
+                    rowmap[(qq, nn, aa)] = tuple(rows[-1][3:])
     for i in range(L):
         if i == fail_at:
             kind = rng.choice(["gate", "gate", "exc", "exc", "bad", "dynoff"])
@@ -782,6 +840,8 @@ def gen_case(rng, maxlen, sers=SERIALIZERS):
             n, a = rng.choice(names), rng.choice(GOOD_ARGS)
             if use_acc and kind == "ok" and rng.random() < 0.45:
                 n = N_ACC                  # low weight family: a method handing out its internal list (known finding)
+            elif use_conv and kind == "ok" and n in (0, 1, 2) and rng.random() < 0.5:
+                a = rng.choice(CONV_ARGS)
             if kind == "exc" and alive:
                 # plant a raising row here (state changes before the raise)
                 rows[:] = [rw for rw in rows if (rw[0], rw[1], rw[2]) != (q, n, a)]
@@ -801,7 +861,11 @@ def gen_case(rng, maxlen, sers=SERIALIZERS):
                 else:
                     q = row[0]
     oneway = rng.random() < 0.3
-    return {"ser": rng.choice(sers), "oneway": oneway, "hold": oneway and L >= 2 and rng.random() < 0.025, "srv": rng.choice(SERVERS), "K": K, "q0": case_q0,
+    ser = rng.choice(sers)
+    if ser in CONV_ARGS_OF:
+        # only argument types this serializer supports at all: 13 -> 9, 14 -> 10 (rows exist for every conversion argument)
+        calls = [[n, (a - 4 if a in CONV_ARGS and a not in CONV_ARGS_OF[ser] else a)] for n, a in calls]
+    return {"ser": ser, "oneway": oneway, "hold": oneway and L >= 2 and rng.random() < 0.025, "srv": rng.choice(SERVERS), "K": K, "q0": case_q0,
             "dyn": dyn, "rows": rows, "calls": calls, "mode": mode}
 
 
@@ -949,7 +1013,7 @@ def _run(ctx, name, n, maxlen, do_model, sers=SERIALIZERS):
             done.append(case)
             if do_model:
                 ml = model_lines(case, pre.get(case["ser"], 0))
-                if v is not None and v[0] == KNOWN_ALIAS:
+                if v is not None and v[0] in (KNOWN_ALIAS, KNOWN_ARGCONV):
                     # the known finding: the oracle has just checked that the batch agrees with the one-by-one run in everything
                     # but the aliased positions; the model (= the one-by-one spec) is compared with the one-by-one run only
                     ctx.count("known-finding-case:batch-line-not-compared-with-model")
